@@ -166,6 +166,12 @@ def directed():
             {'name': 'L2', 'start': 0.0, 'callers': [{'c': 3, 'k': 'a', 'at': 0.5}], 'life': 'full'}],
             'func': {'dur': 1.0, 'fail': fail}, 'mapping': 'dict',
             'strategy': {'kind': 'replay', 'prefix': []}})
+    # results that are None / falsy are results like any other: concurrent callers plus a later one
+    for ret, mp, dur in itertools.product(['none', 'falsy'], ['dict', 'mm', 'lru'], [0, 1.0]):
+        out.append({'loops': [
+            {'name': 'L1', 'start': 0.0, 'callers': [{'c': 1, 'k': 'a'}, {'c': 2, 'k': 'a'}], 'life': 'full'},
+            {'name': 'L2', 'start': 0.0, 'callers': [{'c': 3, 'k': 'a'}, {'c': 4, 'k': 'a', 'at': 3.0}], 'life': 'full'}],
+            'func': {'dur': dur, 'ret': ret}, 'mapping': mp, 'strategy': {'kind': 'replay', 'prefix': []}})
     return out
 
 
@@ -219,7 +225,14 @@ def run(ctx):
                      ('faults', fam_faults), ('mixed', fam_mixed), ('evicting', fam_evicting)):
         n = int(sz[fam] * w[fam])
         for off in range(0, n, 4000):
-            out = ctx.run_and_validate(DRIVER, COMP, TRACE, gen(rng, min(4000, n - off)), fam,
+            scs = gen(rng, min(4000, n - off))
+            for sc in scs:        # what a successful invocation returns: mostly an object, sometimes None / a falsy object
+                r = rng.random()
+                if r < 0.12:
+                    sc['func']['ret'] = 'none'
+                elif r < 0.2:
+                    sc['func']['ret'] = 'falsy'
+            out = ctx.run_and_validate(DRIVER, COMP, TRACE, scs, fam,
                                        nontrivial=nontrivial, known_match=known_match)
             if len(executed) < 4000:
                 executed += out[:600]
